@@ -70,4 +70,18 @@ CLAIMED.update({
              technique="Lean 4 proof per table entry over regenerated tables (gadget lemmas of C11) + structural correspondence + reference-machine oracle"),
 })
 
+CLAIMED.update({
+ "C16": dict(text=_T % "C16" + "generic: if base and upper layer obey the memory laws (load iff all bytes present, width, value, missing/blocks exact) the overlay obeys them for 'upper byte if present else base byte'; "
+             "instantiated for every stack of memories incl. Sparse over Bytes; history theorem; the 'bug: read from overlay' panic unreachable; MemMap laws. 'Base never modified' is a theorem in the value "
+             "model and a runtime monitor (base re-read) for Go aliasing (partial in that clause)",
+             note=_N, technique="Lean 4 proof (generic refinement over memory laws, uses C14 C15 C17) + correspondence on layered histories"),
+ "C18": dict(text=_T % "C18" + "after any write history a register reads as absent iff never written, else with the requested width and the value trunc w' (trunc w e) of the last write; Apply returns false exactly for a "
+             "memory store whose address does not fold to a constant and then leaves the state equal; with a constant address it is the C14/C16 store at the low 8 bytes of the address",
+             note=_N + "Go map modelled as an association list.", technique="Lean 4 proof by induction over histories (uses C12, C09) + correspondence"),
+ "C24": dict(text=_T % "C24" + "for the listing, memory, register and prompt views and the composites the tool builds (incl. the nested emulation screen): for every state and every n >= MinLines, Print n does not panic, "
+             "emits at most n rows, exactly n for fixed-height views; distributeLines terminates and never over-grants for the tool's shapes. Observations (not violations): the missing remLines-- (F26) is "
+             "unreachable from the tool's composites; MinLines 5 > MaxLines for listings shorter than 5 lines. Partial: terminal size and the float64 golden-ratio cut are parameters (validated against Go for n <= 100000)",
+             note=_N + "terminal.GetSize, fmt and the float64 evaluation of n/(phi+1) are outside the model.", technique="Lean 4 proof + correspondence of rendered row counts and grant vectors"),
+})
+
 NOT_YET = {}
